@@ -266,6 +266,9 @@ def run_batch(pid, tier, seed, runs=None, workers=None, deadline_s=None, want_di
             print('HARNESS-ERROR property=%s violation at run %d did not re-execute (nondeterminism in the harness)' % (pid, v['idx']))
             return 2, merged
         sig2 = mod.signature(r.get('case', small), r)
+        if sig2 in seen_sigs and sig2 != sig:
+            continue
+        seen_sigs.add(sig2)
         if sig2 in known_sigs:
             known_hit[sig2] = known_sigs[sig2]
             continue
